@@ -1727,7 +1727,12 @@ func c06Leaf(c *Ctx, p *Prog) {
 			continue
 		}
 		site := p.pos(fn.Pos())
-		mk := func() *e6Interp { return &e6Interp{PureCall: func(f *types.Func) bool { return true }} }
+		mk := func() *e6Interp {
+			return &e6Interp{PureCall: func(f *types.Func) bool { return true }, Inline: func(f *ssa.Function) bool {
+				// small predicates of the node type ("is this a literal term?") are evaluated in place
+				return f.Pkg != nil && f.Pkg.Pkg.Path() == modPath+"/benchproc/internal/parse" && f.Signature.Recv() != nil && recvName(f.Signature.Recv().Type()) == "FilterMatch" && len(naturalLoops(f)) == 0 && len(f.Blocks) <= 4 && f.Name() != "Match" && f.Name() != "MatchString"
+			}}
+		}
 		outs, why := e6Enumerate(mk, fn.Blocks[0], nil, nil, 256)
 		if why != "" {
 			c.Undecided(R, "FilterMatch."+name, site, why)
